@@ -149,6 +149,7 @@ func NewConnPipe(c net.Conn, proto ProtocolInfo) ConnPipe {
 		c:       c,
 		proto:   proto,
 		options: make(map[string]interface{}),
+		open:    true, // so that Close also aborts a handshake in progress
 	}
 
 	p.options[mangos.OptionMaxRecvSize] = 0
@@ -198,7 +199,6 @@ func (p *conn) handshake() error {
 		_ = p.c.Close()
 		return mangos.ErrBadProto
 	}
-	p.open = true
 	return nil
 }
 
